@@ -11,7 +11,7 @@ from . import jsonval as J
 LEVEL = 'model_checking'
 BUDGET_S = {'quick': 120, 'thorough': 900}
 BOUNDS = {
-    'quick': 'program SB(a)[BF(<name>)[]; SB(b, raises, caught)[]]; BF(<name2>, fails, caught): return value of one function a '
+    'quick': 'program SB(a)[BF(<name>)[]; SB(b, raises, caught)[]]; BF(<name2>, fails, caught); BF(o/r); SB(d)[BF(o/r) rejected, caught]: return value of one function a '
              'JSON template (depth <= 2, width <= 2, all leaf kinds, symbolic leaves), versions map with a template value; '
              'output names from a legal-name list (spaces, non-ASCII, leading dot, quotes, backslash, newline); build, unchanged '
              'build (served from cache), clean; plus field-wise comparison of the Cache object written and the one read back; '
@@ -28,6 +28,9 @@ ASSUMPTIONS = [
 WITNESSES = {'quick': ['served-from-cache', 'failure-marker-survived', 'created-dirs-survived', 'cache-object-compared', 'cache-write-failed'],
              'thorough': ['served-from-cache']}
 
+# functions that are legitimately re-executed by an unchanged build: the one that failed (r.1) and the caller that caught a
+# rejected duplicate (r.3, property C08)
+RERUN_OK = {'r.1', 'r.3'}
 NAMES = ['plain.txt', 'with space', 'ünï cödé', '.hidden', '名前', 'quo"te\'', 'back\\slash', 'new\nline', ' lead',
          'r\udce9sum\udce9', '\U0001F600.txt']        # incl. a name that is not valid UTF-8 (os.fsdecode of Latin-1 bytes)
 MID = {'leaf_kinds': ['none', 'bool', 'int', 'float', 'special', 'str'], 'key_kinds': ['str'],
@@ -131,7 +134,7 @@ def write_fails(eng, w, d, prog, versions, beh, target_sid, written, cache_mod):
         eng.check('C16.previous-cache-content', L.and_(*conds), sig)
         # and it is what the next build uses: the original program is served from it
         impl3, ref3 = d.build(prog, versions=versions, behaviour=beh)
-        eng.check('C16.previous-cache-used', impl3[0] == 'ok' and set(d.impl_calls) <= {'r.1'}, sig,
+        eng.check('C16.previous-cache-used', impl3[0] == 'ok' and set(d.impl_calls) <= RERUN_OK, sig,
                   info={'calls': d.impl_calls, 'impl': repr(impl3[1])[:200]})
         if impl3[0] == 'ok':
             eng.check('C16.served-value-equals-original', L.eq(impl1[1], impl3[1], exact_types=True), sig)
@@ -155,6 +158,10 @@ def harness(eng, fam, P):
     t1, t2 = 'o/d/' + n1, 'o/e/' + n2
     body = [('SB', 'a', {}, [('BF', t1, {'mode': 'ok', 'name': 'bf'}, []), ('SB', 'b', {'mode': 'raise', 'catch': True}, [])]),
             ('BF', t2, {'mode': 'raise_after', 'catch': True, 'name': 'bf2'}, []),
+            # a root-level output and a rejected (caught) second attempt at it from inside another operation: the stub record
+            # of the rejected attempt carries the same key as the real one
+            ('BF', 'o/r', {'mode': 'ok', 'name': 'rootbf'}, []),
+            ('SB', 'd', {}, [('BF', 'o/r', {'mode': 'ok', 'catch': True, 'name': 'dup'}, [])]),
             ('Q', 'is_file', t1)]
     prog = Program(eng, body)
     w = World(eng, ['c', 'o', 'o/d'], cache_rel='c/cache', sandbox=getattr(eng, 'sandbox', None))
@@ -227,7 +234,7 @@ def harness(eng, fam, P):
         eng.check('C16.rebuild-ok', impl2[0] == 'ok', sig, info={'exc': repr(impl2[1])[:200]})
         eng.check('C16.served-value-equals-original', L.eq(impl1[1], impl2[1], exact_types=True), sig,
                   info={'first': repr(impl1[1])[:300], 'second': repr(impl2[1])[:300]})
-        eng.check('C16.nothing-reexecuted-but-failures', set(d.impl_calls) <= {'r.1'}, sig, info={'calls': d.impl_calls})
+        eng.check('C16.nothing-reexecuted-but-failures', set(d.impl_calls) <= RERUN_OK, sig, info={'calls': d.impl_calls})
         eng.witness('served-from-cache')
         if 'exc:Boom' in repr(impl2[1]):
             eng.witness('failure-marker-survived')
